@@ -492,6 +492,119 @@ func (g *gWorld) apply(op *gOp) string {
 		if t >= 0 {
 			ent.target = t
 		}
+	case "mapAddT", "mapRemoveT":
+		// MapN built with a relation component that is NOT one of its own components: Add / Remove with
+		// a target change the entity's components and re-target the relation it already carries
+		if ad.NewMap == nil || ad.HasRel || ad.N == 0 || !targetOK(op.T) || op.T == -2 {
+			return ""
+		}
+		ids := g.mapIDs(ad.Types)
+		suitable := ent != nil && ent.alive && ent.comps[tGR0] &&
+			((op.K == "mapAddT" && g.entHasNone(ent, ad.Types)) || (op.K == "mapRemoveT" && g.entHasAll(ent, ad.Types)))
+		if !suitable {
+			// no such entity yet: make one (ID-based, in both worlds) that carries the relation
+			// component and, for Remove, the map's components
+			with := []int{tGR0}
+			if op.K == "mapRemoveT" {
+				with = append(with, ad.Types...)
+			}
+			hg, hc := g.Wg.NewEntity(g.mapIDs(with)...), g.Wc.NewEntity(g.mapIDs(with)...)
+			if msg := g.bind([]ecs.Entity{hg}, []ecs.Entity{hc}, with, -1); msg != "" {
+				return msg
+			}
+			ent = g.ents[len(g.ents)-1]
+		}
+		m := g.mapOfExt(ad)
+		if op.K == "mapAddT" {
+			m.Add(ent.h, g.handle(op.T))
+			g.Wc.Relations().Exchange(ent.h, ids, nil, g.ids[tGR0], g.handle(op.T))
+			for _, c := range ad.Types {
+				ent.comps[c] = true
+			}
+		} else {
+			m.Remove(ent.h, g.handle(op.T))
+			g.Wc.Relations().Exchange(ent.h, nil, ids, g.ids[tGR0], g.handle(op.T))
+			for _, c := range ad.Types {
+				delete(ent.comps, c)
+			}
+		}
+		ent.target = op.T
+		g.nontri = true
+		g.label("MapN with an external relation: " + op.K)
+	case "mapAddBatchT":
+		if ad.NewMap == nil || ad.HasRel || ad.N == 0 || !targetOK(op.T) || op.T == -2 {
+			return ""
+		}
+		{
+			m := g.mapOfExt(ad)
+			ids := g.mapIDs(ad.Types)
+			fg := ecs.All(g.ids[tGR0]).Without(ids...)
+			fc := ecs.All(g.ids[tGR0]).Without(ids...)
+			var cg int
+			if op.Q {
+				q := m.AddBatchQ(&fg, g.handle(op.T))
+				cg = q.Base().Count()
+				for q.Base().Next() {
+					if msg := g.checkQueryGet(ad, q, fmt.Sprintf("Map%d(%s).AddBatchQ(filter, target)", ad.N, ad.Name)); msg != "" {
+						q.Base().Close()
+						return msg
+					}
+				}
+			} else {
+				cg = m.AddBatch(&fg, g.handle(op.T))
+			}
+			cc := g.Wc.Relations().ExchangeBatch(&fc, ids, nil, g.ids[tGR0], g.handle(op.T))
+			if cg != cc {
+				return fmt.Sprintf("Map%d.AddBatch(filter, target) affected %d entities, Relations.ExchangeBatch %d", ad.N, cg, cc)
+			}
+			for _, e := range g.ents {
+				if e.alive && e.comps[tGR0] && g.entHasNone(e, ad.Types) {
+					for _, c := range ad.Types {
+						e.comps[c] = true
+					}
+					e.target = op.T
+				}
+			}
+			if cg > 0 {
+				g.label("MapN with an external relation: AddBatch with target")
+			}
+		}
+	case "mapRemoveBatchT":
+		if ad.NewMap == nil || ad.HasRel || ad.N == 0 || !targetOK(op.T) || op.T == -2 {
+			return ""
+		}
+		m := g.mapOfExt(ad)
+		ids := g.mapIDs(ad.Types)
+		inc := append(append([]int{}, ad.Types...), tGR0)
+		fg, fc := ecs.All(g.mapIDs(inc)...), ecs.All(g.mapIDs(inc)...)
+		var cg int
+		if op.Q {
+			q := m.RemoveBatchQ(fg, g.handle(op.T))
+			cg = q.Base().Count()
+			for q.Base().Next() {
+				if q.Base().Relation(g.ids[tGR0]) != g.handle(op.T) {
+					q.Base().Close()
+					return fmt.Sprintf("Map%d.RemoveBatchQ(filter, target): the query reports target %v, want %v", ad.N, q.Base().Relation(g.ids[tGR0]), g.handle(op.T))
+				}
+			}
+		} else {
+			cg = m.RemoveBatch(fg, g.handle(op.T))
+		}
+		cc := g.Wc.Relations().ExchangeBatch(fc, nil, ids, g.ids[tGR0], g.handle(op.T))
+		if cg != cc {
+			return fmt.Sprintf("Map%d.RemoveBatch(filter, target) affected %d entities, Relations.ExchangeBatch %d", ad.N, cg, cc)
+		}
+		for _, e := range g.ents {
+			if e.alive && g.entHasAll(e, inc) {
+				for _, c := range ad.Types {
+					delete(e.comps, c)
+				}
+				e.target = op.T
+			}
+		}
+		if cg > 0 {
+			g.label("MapN with an external relation: RemoveBatch with target")
+		}
 	case "mapRemove":
 		if ad.NewMap == nil || ent == nil || !ent.alive || !g.entHasAll(ent, ad.Types) {
 			return ""
@@ -644,5 +757,20 @@ func (g *gWorld) mapOf(ad *gAdapter, rel []generic.Comp) gMap {
 	}
 	m := ad.NewMap(g.Wg, rel...)
 	g.maps[ad.Name] = m
+	return m
+}
+
+// mapOfExt returns the world's long-lived MapN object of an adapter WITHOUT a relation type, built with
+// the external relation component GR0.
+func (g *gWorld) mapOfExt(ad *gAdapter) gMap {
+	if g.maps == nil {
+		g.maps = map[string]gMap{}
+	}
+	key := ad.Name + "/ext"
+	if m, ok := g.maps[key]; ok {
+		return m
+	}
+	m := ad.NewMap(g.Wg, allStaticTypes[tGR0])
+	g.maps[key] = m
 	return m
 }
